@@ -3,6 +3,7 @@ import StepModel.GenPyPass
 import StepModel.GenPyOrder
 import StepModel.GenPyEntityOrder
 import StepModel.GenPyBody
+import StepModel.GenPyStmt
 /-!
 # C18 — exp2python emits a module that mirrors the schema
 
@@ -1655,6 +1656,292 @@ example : FirstBefore { owner := "root", name := "x", kind := .explicit } { owne
     (A := "root") (B := "l") (ae := ⟨"root", [], [{ owner := "root", name := "x", kind := .explicit }]⟩)
     (be := ⟨"l", ["root"], [{ owner := "l", name := "y", kind := .explicit }]⟩) (Anc.direct (e := ⟨"l", ["root"], [{ owner := "l", name := "y", kind := .explicit }]⟩) (by decide) (by decide))
     (by decide) (by decide) (by decide) (by decide) (by decide) (by decide)
+
+
+/-! ## FUNCTION bodies: translation correctness of the statement fragment -/
+
+namespace Stmt
+open Body
+
+/-- every increment of a REPEAT in the statement is a non-zero literal -/
+def wf : Stmt → Bool
+  | .seq a b => wf a && wf b
+  | .ite _ t e => wf t && wf e
+  | .repeatInc _ _ _ s body => s != 0 && wf body
+  | _ => true
+
+theorem expr_value (env : Env) (e : Expr) (v : V) (p : PyExpr)
+    (hs : Spec.Body.eval env e = some v) (hr : readWith exprCfg e = some p) :
+    pyEval (instanceOf env) p = some v :=
+  Body.body_value exprCfg env (C18_body_names_distinct_when_stems_compared C18_tie_escapes_stems env) e v p
+    (Or.inl rfl) (Or.inl rfl) hs hr
+
+theorem instanceOf_cons (x : String) (v : V) (env : Env) : instanceOf ((x, v) :: env) = (pyName x, v) :: instanceOf env := rfl
+
+theorem loop_sim (runS runP : Env → Option (Env × Out))
+    (hrun : ∀ env r, runS env = some r → runP (instanceOf env) = some (instanceOf r.1, r.2))
+    (i : String) (b s : Int) (hs0 : s ≠ 0) :
+    ∀ (n : Nat) (env : Env) (cur : Int) (r : Env × Out), Spec.Stmt.loop runS n env i cur b s = some r →
+      pyLoop runP n (instanceOf env) (pyName i) cur (b + (if s > 0 then 1 else -1)) s = some (instanceOf r.1, r.2) := by
+  intro n
+  induction n with
+  | zero => intro env cur r h; simp [Spec.Stmt.loop] at h
+  | succ n ih =>
+    intro env cur r h
+    simp only [Spec.Stmt.loop] at h
+    simp only [pyLoop]
+    by_cases hp : s > 0
+    · have hn : ¬ s < 0 := by omega
+      simp only [hp, hn, if_true, true_and, false_and, or_false] at h ⊢
+      by_cases hc : cur > b
+      · have : ¬ cur < b + 1 := by omega
+        simp only [hc, if_true] at h
+        simp only [this, if_false]
+        injection h with h; subst h; rfl
+      · have hlt : cur < b + 1 := by omega
+        simp only [hc, if_false] at h
+        simp only [hlt, if_true]
+        cases hr : runS ((i, .int cur) :: env) with
+        | none => simp [hr] at h
+        | some q =>
+          have hq := hrun _ _ hr
+          rw [instanceOf_cons] at hq
+          obtain ⟨env', o⟩ := q
+          rw [hq]
+          simp only [hr] at h
+          cases o with
+          | normal => simp only at h ⊢; have := ih env' (cur + s) r h; simpa [hp] using this
+          | skipped => simp only at h ⊢; have := ih env' (cur + s) r h; simpa [hp] using this
+          | escaped => simp only at h ⊢; injection h with h; subst h; rfl
+          | returned v => simp only at h ⊢; injection h with h; subst h; rfl
+    · have hn : s < 0 := by omega
+      simp only [hp, hn, if_false, true_and, false_and, false_or] at h ⊢
+      by_cases hc : cur < b
+      · have : ¬ cur > b + -1 := by omega
+        simp only [hc, if_true] at h
+        simp only [this, if_false]
+        injection h with h; subst h; rfl
+      · have hgt : cur > b + -1 := by omega
+        simp only [hc, if_false] at h
+        simp only [hgt, if_true]
+        cases hr : runS ((i, .int cur) :: env) with
+        | none => simp [hr] at h
+        | some q =>
+          have hq := hrun _ _ hr
+          rw [instanceOf_cons] at hq
+          obtain ⟨env', o⟩ := q
+          rw [hq]
+          simp only [hr] at h
+          cases o with
+          | normal => simp only at h ⊢; have := ih env' (cur + s) r h; simpa [hp] using this
+          | skipped => simp only at h ⊢; have := ih env' (cur + s) r h; simpa [hp] using this
+          | escaped => simp only at h ⊢; injection h with h; subst h; rfl
+          | returned v => simp only at h ⊢; injection h with h; subst h; rfl
+
+/-- regenerated tie: `STATEMENTPrint` writes `continue` for SKIP (fixes/C18-21) -/
+theorem tie_skip : skipIsContinue = true := rfl
+
+theorem stmt_sim : ∀ (f : Nat) (env : Env) (s : Stmt) (p : PyStmt) (r : Env × Out),
+    wf s = true → tr s = some p → Spec.Stmt.exec f env s = some r →
+    pyExec f (instanceOf env) p = some (instanceOf r.1, r.2) := by
+  intro f
+  induction f with
+  | zero => intro env s p r _ _ h; simp [Spec.Stmt.exec] at h
+  | succ f ih =>
+    intro env s p r hw htr h
+    cases s with
+    | nop =>
+      simp only [tr, Option.some.injEq] at htr; subst htr
+      simp only [Spec.Stmt.exec, Option.some.injEq] at h; subst h
+      rfl
+    | seq a b =>
+      simp only [wf, Bool.and_eq_true] at hw
+      simp only [tr, Option.bind_eq_bind, Option.pure_def] at htr
+      cases hpa : tr a with
+      | none => simp [hpa] at htr
+      | some pa =>
+        cases hpb : tr b with
+        | none => simp [hpa, hpb] at htr
+        | some pb =>
+          simp only [hpa, hpb, Option.bind_some, Option.some.injEq] at htr; subst htr
+          simp only [Spec.Stmt.exec] at h
+          simp only [pyExec]
+          cases hra : Spec.Stmt.exec f env a with
+          | none => simp [hra] at h
+          | some q =>
+            obtain ⟨env', o⟩ := q
+            rw [ih env a pa (env', o) hw.1 hpa hra]
+            simp only [hra] at h
+            cases o with
+            | normal => simp only at h ⊢; exact ih env' b pb r hw.2 hpb h
+            | skipped => simp only at h ⊢; injection h with h; subst h; rfl
+            | escaped => simp only at h ⊢; injection h with h; subst h; rfl
+            | returned v => simp only at h ⊢; injection h with h; subst h; rfl
+    | assign x e =>
+      simp only [tr] at htr
+      cases hpe : readWith exprCfg e with
+      | none => simp [hpe] at htr
+      | some pe =>
+        simp only [hpe, Option.map_some, Option.some.injEq] at htr; subst htr
+        simp only [Spec.Stmt.exec] at h
+        cases hv : Spec.Body.eval env e with
+        | none => simp [hv] at h
+        | some v =>
+          simp only [hv, Option.map_some, Option.some.injEq] at h; subst h
+          simp only [pyExec, expr_value env e v pe hv hpe, Option.map_some]
+          rfl
+    | ite c t e =>
+      simp only [wf, Bool.and_eq_true] at hw
+      simp only [tr, Option.bind_eq_bind, Option.pure_def] at htr
+      cases hpc : readWith exprCfg c with
+      | none => simp [hpc] at htr
+      | some pc =>
+        cases hpt : tr t with
+        | none => simp [hpc, hpt] at htr
+        | some pt =>
+          cases hpe : tr e with
+          | none => simp [hpc, hpt, hpe] at htr
+          | some pe =>
+            simp only [hpc, hpt, hpe, Option.bind_some, Option.some.injEq] at htr; subst htr
+            simp only [Spec.Stmt.exec] at h
+            cases hv : Spec.Body.eval env c with
+            | none => simp [hv] at h
+            | some v =>
+              cases v with
+              | int n => simp [hv] at h
+              | bool bv =>
+                simp only [pyExec, expr_value env c (.bool bv) pc hv hpc]
+                cases bv with
+                | true => simp only [hv] at h; simp only [V.truthy, if_true]; exact ih env t pt r hw.1 hpt h
+                | false =>
+                  simp only [hv] at h
+                  simp only [V.truthy, Bool.false_eq_true, if_false]; exact ih env e pe r hw.2 hpe h
+    | repeatInc i a b st body =>
+      simp only [wf, Bool.and_eq_true, bne_iff_ne, ne_eq] at hw
+      simp only [tr, Option.bind_eq_bind, Option.pure_def] at htr
+      cases hpa : readWith exprCfg a with
+      | none => simp [hpa] at htr
+      | some pa =>
+        cases hpb : readWith exprCfg b with
+        | none => simp [hpa, hpb] at htr
+        | some pb =>
+          cases hpbody : tr body with
+          | none => simp [hpa, hpb, hpbody] at htr
+          | some pbody =>
+            simp only [hpa, hpb, hpbody, Option.bind_some, Option.some.injEq] at htr; subst htr
+            simp only [Spec.Stmt.exec] at h
+            cases hva : Spec.Body.eval env a with
+            | none => simp [hva] at h
+            | some va =>
+              cases hvb : Spec.Body.eval env b with
+              | none => cases va <;> simp [hva, hvb] at h
+              | some vb =>
+                cases va with
+                | bool _ => simp [hva, hvb] at h
+                | int ia =>
+                  cases vb with
+                  | bool _ => simp [hva, hvb] at h
+                  | int ib =>
+                    simp only [hva, hvb] at h
+                    simp only [pyExec, expr_value env a (.int ia) pa hva hpa, expr_value env b (.int ib) pb hvb hpb, V.toInt,
+                      stopWritten, C18_tie_repeat_bound_inclusive, if_true]
+                    exact loop_sim (fun env' => Spec.Stmt.exec f env' body) (fun env' => pyExec f env' pbody)
+                      (fun env' r' hr' => ih env' body pbody r' hw.2 hpbody hr') i ib st hw.1 f env ia r h
+    | skip =>
+      simp only [tr, tie_skip, if_true, Option.some.injEq] at htr; subst htr
+      simp only [Spec.Stmt.exec, Option.some.injEq] at h; subst h
+      rfl
+    | escape =>
+      simp only [tr, Option.some.injEq] at htr; subst htr
+      simp only [Spec.Stmt.exec, Option.some.injEq] at h; subst h
+      rfl
+    | ret e =>
+      simp only [tr] at htr
+      cases hpe : readWith exprCfg e with
+      | none => simp [hpe] at htr
+      | some pe =>
+        simp only [hpe, Option.map_some, Option.some.injEq] at htr; subst htr
+        simp only [Spec.Stmt.exec] at h
+        cases hv : Spec.Body.eval env e with
+        | none => simp [hv] at h
+        | some v =>
+          simp only [hv, Option.map_some, Option.some.injEq] at h; subst h
+          simp only [pyExec, expr_value env e v pe hv hpe, Option.map_some]
+
+theorem tr_isSome : ∀ s : Stmt, (tr s).isSome = true := by
+  have he : ∀ e : Expr, ∃ p, readWith exprCfg e = some p := by
+    intro e
+    have := (Body.readWith_isSome exprCfg e).mpr (Or.inl rfl)
+    cases h : readWith exprCfg e with
+    | none => rw [h] at this; cases this
+    | some p => exact ⟨p, rfl⟩
+  intro s
+  induction s with
+  | nop => rfl
+  | seq a b iha ihb =>
+    cases ha : tr a with
+    | none => rw [ha] at iha; cases iha
+    | some pa => cases hb : tr b with
+      | none => rw [hb] at ihb; cases ihb
+      | some pb => simp [tr, ha, hb]
+  | assign x e => obtain ⟨p, hp⟩ := he e; simp [tr, hp]
+  | ite c t e iht ihe =>
+    obtain ⟨pc, hc⟩ := he c
+    cases ht : tr t with
+    | none => rw [ht] at iht; cases iht
+    | some pt => cases hee : tr e with
+      | none => rw [hee] at ihe; cases ihe
+      | some pe => simp [tr, hc, ht, hee]
+  | repeatInc i a b st body ih =>
+    obtain ⟨pa, ha⟩ := he a
+    obtain ⟨pb, hb⟩ := he b
+    cases hbody : tr body with
+    | none => rw [hbody] at ih; cases ih
+    | some pbody => simp [tr, ha, hb, hbody]
+  | skip => simp [tr]
+  | escape => rfl
+  | ret e => obtain ⟨p, hp⟩ := he e; simp [tr, hp]
+
+end Stmt
+
+/-- regenerated tie: `STATEMENTPrint` writes `continue` for SKIP (fixes/C18-21).  Does not build on a tree that writes `break`. -/
+theorem C18_tie_skip_is_continue : skipIsContinue = true := rfl
+
+/-- Every statement of the fragment is translated to Python statements (no expression in it fails to be Python). -/
+theorem C18_function_statements_are_python (s : Stmt.Stmt) : (Stmt.tr s).isSome = true := Stmt.tr_isSome s
+
+/-- **Translation correctness of FUNCTION bodies** for the fragment null statement, sequence, assignment, IF [ELSE], REPEAT
+with an increment control (non-zero literal increment, no WHILE / UNTIL control), SKIP, ESCAPE, RETURN over the expression
+fragment: whenever the reference semantics (ISO 10303-11 clause 13, `Spec.Stmt.exec`) runs the statement from an
+environment to a result — a final environment and the way it ends (normally, by SKIP / ESCAPE travelling to the enclosing
+loop, or by RETURN with a value) — the Python statements `STATEMENTPrint` / `LOOPpyout` write for it (`Stmt.tr`), run by
+Python's semantics (`Stmt.pyExec`) from the same environment under the escaped names, reach exactly that result, with the
+same fuel.  For every statement, environment and fuel; in particular a function returns what EXPRESS says it returns. -/
+theorem C18_function_statements_translated (f : Nat) (env : Stmt.Env) (s : Stmt.Stmt) (r : Stmt.Env × Stmt.Out)
+    (hw : Stmt.wf s = true) (hs : Spec.Stmt.exec f env s = some r) :
+    ∃ p, Stmt.tr s = some p ∧ Stmt.pyExec f (Body.instanceOf env) p = some (Body.instanceOf r.1, r.2) := by
+  cases hp : Stmt.tr s with
+  | none => have := Stmt.tr_isSome s; rw [hp] at this; cases this
+  | some p => exact ⟨p, rfl, Stmt.stmt_sim f env s p r hw hp hs⟩
+
+/-- A function whose body EXPRESS runs to `RETURN (v)` returns `v` in Python. -/
+theorem C18_function_returns_the_express_value (f : Nat) (env env' : Stmt.Env) (s : Stmt.Stmt) (v : Body.V)
+    (hw : Stmt.wf s = true) (hs : Spec.Stmt.exec f env s = some (env', .returned v)) :
+    ∃ p penv, Stmt.tr s = some p ∧ Stmt.pyExec f (Body.instanceOf env) p = some (penv, .returned v) := by
+  obtain ⟨p, hp, hx⟩ := C18_function_statements_translated f env s _ hw hs
+  exact ⟨p, _, hp, hx⟩
+
+/-- SKIP written as `break` (before fixes/C18-21): `REPEAT i := 1 TO 3; IF i = 2 THEN SKIP; END_IF; r := r + i; END_REPEAT;
+RETURN (r)` from r = 0 returns 4 in EXPRESS and 1 in the Python that was written. -/
+theorem C18_legacy_skip_is_break_witness :
+    let cond : Body.Expr := .bin .eq (.attr "i") (.int 2)
+    let add : Body.Expr := .bin .plus (.attr "r") (.attr "i")
+    let src : Stmt.Stmt := .seq (.repeatInc "i" (.int 1) (.int 3) 1 (.seq (.ite cond .skip .nop) (.assign "r" add))) (.ret (.attr "r"))
+    let old : Stmt.PyStmt := .seq (.forRange "i" (.int 1) (.int 3) 1
+        (.seq (.ite (.bin .eq (.attr "i") (.int 2)) .break_ .pass) (.assign "r" (.bin .plus (.attr "r") (.attr "i"))))) (.ret (.attr "r"))
+    (Spec.Stmt.exec 20 [("r", .int 0)] src).map (·.2) = some (.returned (.int 4)) ∧
+    (Stmt.pyExec 20 [("r", .int 0)] old).map (·.2) = some (.returned (.int 1)) := by
+  decide
 
 
 end StepModel.GenPy
